@@ -12,16 +12,17 @@ import (
 	"path/filepath"
 	"regexp"
 	"strings"
+	"sync/atomic"
 
 	"golang.org/x/tools/go/ssa"
 )
 
 var errType = types.NewNamed(types.NewTypeName(0, nil, "vErrObj", nil), types.NewStruct(nil, nil), nil)
-var errSeq int
+var errSeq int64
 
 func newErr(msg string, wrap Value) Value {
-	errSeq++
-	return &Iface{T: errType, V: &ErrObj{Msg: msg, Wrap: wrap, ID: errSeq}}
+	id := atomic.AddInt64(&errSeq, 1)
+	return &Iface{T: errType, V: &ErrObj{Msg: msg, Wrap: wrap, ID: int(id)}}
 }
 
 func (e *Engine) finish(st *State, callInstr ssa.Value, r Value, fromDefer bool) {
